@@ -137,6 +137,44 @@ func c13rContainsCall(n ast.Node, callee string) bool {
 	return found
 }
 
+// c13rSoleCallee: fn's body is a single statement that calls a package-level function declared in one of
+// the files (`return helper(..)` / `helper(..)`): that function.
+func c13rSoleCallee(fn *ast.FuncDecl, files ...*ast.File) *ast.FuncDecl {
+	if fn == nil || fn.Body == nil || len(fn.Body.List) != 1 {
+		return nil
+	}
+	var e ast.Expr
+	switch st := fn.Body.List[0].(type) {
+	case *ast.ReturnStmt:
+		if len(st.Results) != 1 {
+			return nil
+		}
+		e = st.Results[0]
+	case *ast.ExprStmt:
+		e = st.X
+	default:
+		return nil
+	}
+	c, ok := e.(*ast.CallExpr)
+	if !ok {
+		return nil
+	}
+	f := c.Fun
+	if ix, ok := f.(*ast.IndexExpr); ok { // helper[T](..)
+		f = ix.X
+	}
+	id, ok := f.(*ast.Ident)
+	if !ok {
+		return nil
+	}
+	for _, file := range files {
+		if h := c13rFunc(file, id.Name); h != nil && h.Body != nil {
+			return h
+		}
+	}
+	return nil
+}
+
 type c13Site struct {
 	guard, flagAfter, reportFirst bool
 	report                        string
@@ -355,6 +393,16 @@ func c13ExtractRecover(repo string) (string, string, error) {
 			return nil, fmt.Errorf("%s not found", what)
 		}
 		l := pick(fn.Body)
+		// a body that only hands over to a private helper of the same package (`return helper(x.recv, x.close)`):
+		// the literal is looked for in the helper (at most two hops)
+		for hops := 0; l == nil && hops < 2; hops++ {
+			h := c13rSoleCallee(fn, fm, ft, fs)
+			if h == nil {
+				break
+			}
+			fn = h
+			l = pick(fn.Body)
+		}
 		if l == nil {
 			return nil, fmt.Errorf("%s: the function literal was not found", what)
 		}
